@@ -136,7 +136,7 @@ def get_session(ctx):
     key = (ctx.seed, ctx.tier, str(common.REPO))
     if key not in _SESSIONS:
         ns_seed = random.Random(ctx.seed).getrandbits(64)
-        n_types = 40 if ctx.quick else 500
+        n_types = 40 if ctx.quick else 360
         _SESSIONS[key] = Session(ctx.seed, ctx.tier, n_types, ns_seed)
     return _SESSIONS[key]
 
